@@ -130,6 +130,7 @@ let impl_snap (pos : Sx.t) (blen : string) (len : Sx.t) (d : Sx.t) : snapobs =
     let c = content_of_sx d in
     { pos = p; blen; len; v = obs_of_list (to_list c); t = string_of_ty (type_of c); raw = Sx.to_string d; valid = valid_b c }
   with Bad s -> { pos = p; blen; len; v = OBad s; t = "?"; raw = Sx.to_string d; valid = false }
+     | Stack_overflow -> { pos = p; blen; len; v = OBad "absurd index (stack overflow in to_list)"; t = "?"; raw = Sx.to_string d; valid = false }
 
 let impl_events (evs : Sx.t list) : evobs list =
   List.map (function
@@ -169,7 +170,7 @@ let verdict (id : string) (rest : Sx.t list) : string =
   (match vals with
    | None -> ()
    | Some vs ->
-     if not (constructible f) then bad "vals given for a form outside the fragment";
+     if not (constructible f && unambiguous f) then bad "vals given for a form outside the fragment";
      if not (List.for_all (fun v -> conf f v) vs) then bad "vals do not conform to the form";
      if lb_encode f vs <> plain then bad "cmds are not lb_encode of vals";
      (match r nplain with
